@@ -302,3 +302,106 @@ Proof.
   destruct A as [mid E]. exists (vals s5 SEC_S (L "ExecStartPre")), mods, mid. split; [exact Hm|].
   unfold handle_podman_args. rewrite E, <- !app_assoc. reflexivity.
 Qed.
+
+(* ---- .kube: podman kube play ... PodmanArgs yaml ---- *)
+Theorem kube_shape podman kill_fixed u path tbl svc sp t' :
+  from_kube podman kill_fixed u path tbl = COk (svc, sp, t') ->
+  exists before mods mid yaml,
+    @lk_all berr u c_KUBE_SECTION (L "ContainersConfModule") = COk mods /\
+    vals svc SEC_S (L "ExecStart") =
+      before ++ [quote_words (global_words podman mods u c_KUBE_SECTION ++ [L "kube"; L "play"; L "--replace"; L "--service-container=true"] ++ mid
+                              ++ lookup_all_args u c_KUBE_SECTION (L "PodmanArgs") ++ [yaml])].
+Proof.
+  unfold from_kube. cbv zeta. bel. intros [i svc0] _. intros R. apply lift_ok in R. revert R.
+  bel. intros y _. destruct y as [[|c s]|]; try discriminate.
+  bel. intros yaml _. bel. intros s1 _. bel. intros ty _. bel. intros base Hb. bel. intros ecp _. bel. intros a1 A1.
+  bel. intros a2 A2. bel. intros [a3 s3] A3. bel. intros cms _. bel. intros a4 A4.
+  bel. intros s4 H4. bel. intros base2 _. bel. intros s5 H5. bel. intros [cx s6] H6. intros E. injection E as <- _ _. cbn [snd].
+  destruct (base_command_is _ _ _ _ Hb) as (mods & Hm & ->).
+  assert (E6 : vals s6 SEC_S (L "ExecStart") = vals s5 SEC_S (L "ExecStart")).
+  { revert H6. unfold handle_set_working_directory. cbv zeta. bel. intros swd _.
+    destruct swd as [[|c0 w]|]; try (intros X; injection X as _ <-; reflexivity).
+    bel. intros [ctx rel] _. destruct rel as [|r0 rel]; [intros X; injection X as _ <-; reflexivity|].
+    destruct (is_url ctx); [intros X; injection X as _ <-; reflexivity|]. bel. intros wd _.
+    destruct wd as [[|w0 wd]|]; try (intros X; injection X as _ <-; reflexivity).
+    all: bel; intros fp _ X; injection X as _ <-; unfold unit_add; rewrite vals_add_entry;
+      match goal with |- context [if ?b then _ else _] => let v := eval vm_compute in b in change b with v; cbv iota end; rewrite app_nil_r; reflexivity. }
+  rewrite E6, (vals_add_raw_exec _ _ _ _ (L "ExecStart") H5), (vals_add_raw_exec _ _ _ _ (L "ExecStart") H4).
+  repeat (match goal with |- context [if ?b then _ else _] => let v := eval vm_compute in b in progress (change b with v; cbv iota) end).
+  rewrite app_nil_r.
+  assert (A : App (global_words podman mods u c_KUBE_SECTION ++ [L "kube"; L "play"; L "--replace"; L "--service-container=true"]) a4).
+  { pose proof (log_driver_app _ _ _ _ A1) as P1. pose proof (user_mappings_app _ _ _ _ _ A2) as P2. pose proof (networks_app _ _ _ _ _ _ _ A3) as P3.
+    pose proof (add_all_strings_app _ _ _ _ _ A4) as P4. unfold handle_log_opt in P2.
+    destruct P1 as [d1 E1]. destruct P2 as [d2 E2]. destruct P3 as [d3 E3]. destruct P4 as [d4 E4].
+    rewrite E4, E3, E2, E1. clear. set (hd := global_words podman mods u c_KUBE_SECTION ++ [L "kube"; L "play"; L "--replace"; L "--service-container=true"]).
+    destruct ecp as [[|d e]|]; rewrite <- !app_assoc; apply App_app. }
+  destruct A as [mid E]. exists (vals s3 SEC_S (L "ExecStart")), mods, mid, yaml. split; [exact Hm|].
+  unfold handle_podman_args. rewrite E, <- !app_assoc. reflexivity.
+Qed.
+
+(* ---- .build: podman build ... PodmanArgs [context | working directory] ---- *)
+Theorem build_shape podman mount_nl u path tbl svc sp t' :
+  from_build podman mount_nl u path tbl = COk (svc, sp, t') ->
+  exists before mods mid tail,
+    @lk_all berr u c_BUILD_SECTION (L "ContainersConfModule") = COk mods /\
+    (tail = [] \/ exists x, tail = [x]) /\
+    vals svc SEC_S (L "ExecStart") =
+      before ++ [quote_words (global_words podman mods u c_BUILD_SECTION ++ [L "build"] ++ mid ++ lookup_all_args u c_BUILD_SECTION (L "PodmanArgs") ++ tail)].
+Proof.
+  unfold from_build. destruct (file_name path); [|discriminate]. destruct (tbl_get tbl l); [|discriminate]. destruct (i_resource_name i); [discriminate|]. cbv zeta.
+  bel. intros ? _. bel. intros ? _. bel. intros ? _. bel. intros ? _. intros R. apply lift_ok in R. revert R.
+  bel. intros base Hb. bel. intros pull _. bel. intros g1 G1. bel. intros g2 G2. bel. intros [g3 s3] G3. bel. intros [g4 s4] G4. bel. intros [ctx s5] _.
+  bel. intros wd _. bel. intros fp _. bel. intros [wdir fpath] _. bel. intros g5 G5. bel. intros s6 H6. bel. intros s7 H7. intros E. injection E as <- _ _.
+  destruct (base_command_is _ _ _ _ Hb) as (mods & Hm & ->).
+  rewrite (one_shot_keeps_execstart _ _ _ H7), (add_raw_exec_execstart _ _ _ H6).
+  pose proof (add_strings_app _ _ _ _ _ G1) as P1. pose proof (add_all_strings_app _ _ _ _ _ G2) as P2. pose proof (networks_app _ _ _ _ _ _ _ G3) as P3.
+  pose proof (volumes_app _ _ _ _ _ _ _ _ _ G4) as P4.
+  destruct P1 as [d1 E1]. destruct P2 as [d2 E2]. destruct P3 as [d3 E3]. destruct P4 as [d4 E4].
+  set (hd := global_words podman mods u c_BUILD_SECTION ++ [L "build"]) in *.
+  assert (A : exists mid, match fpath with [] => g4 | _ => g4 ++ [L "--file"; fpath] end = hd ++ mid).
+  { destruct (add_bools_app u c_BUILD_SECTION pt_from_build_unit_bool_keys g1) as [db Eb]. rewrite Eb in E2.
+    unfold add_keys in E3. rewrite E4, E3, E2, E1. clear.
+    destruct pull as [[|c s]|]; destruct fpath; eexists; rewrite <- !app_assoc; reflexivity. }
+  destruct A as [mid EA].
+  assert (T : exists tail, g5 = handle_podman_args u c_BUILD_SECTION (match fpath with [] => g4 | _ => g4 ++ [L "--file"; fpath] end) ++ tail /\ (tail = [] \/ exists x, tail = [x])).
+  { revert G5. destruct ctx as [|c0 ctx]; [|intros X; injection X as <-; eexists; split; [reflexivity|right; eexists; reflexivity]].
+    destruct (_ && _); [|intros X; injection X as <-; exists []; split; [rewrite app_nil_r; reflexivity|left; reflexivity]].
+    destruct wdir; [discriminate|]. intros X. injection X as <-. eexists. split; [reflexivity|right; eexists; reflexivity]. }
+  destruct T as (tail & -> & Ht). exists (vals s5 SEC_S (L "ExecStart")), mods, mid, tail. split; [exact Hm|]. split; [exact Ht|].
+  unfold handle_podman_args. rewrite EA. unfold hd. rewrite <- !app_assoc. reflexivity.
+Qed.
+
+(* ---- .volume: podman volume create --ignore ... PodmanArgs name ---- *)
+Theorem volume_shape podman u path tbl svc sp t' :
+  from_volume podman u path tbl = COk (svc, sp, t') ->
+  exists before mods mid name,
+    @lk_all berr u c_VOLUME_SECTION (L "ContainersConfModule") = COk mods /\
+    volume_name u path = COk name /\
+    vals svc SEC_S (L "ExecStart") =
+      before ++ [quote_words (global_words podman mods u c_VOLUME_SECTION ++ [L "volume"; L "create"; L "--ignore"] ++ mid
+                              ++ lookup_all_args u c_VOLUME_SECTION (L "PodmanArgs") ++ [name])].
+Proof.
+  unfold from_volume. bel. intros [i svc0] _. intros R. apply lift_ok in R. revert R. cbv zeta. bel. intros nm Hn.
+  destruct (file_name path); [|discriminate]. intros R. apply with_tbl_ok in R. revert R. bel. intros s1 B1. intros E. injection E as <- _ _.
+  revert B1. unfold volume_body. cbv zeta.
+  bel. intros base Hb. bel. intros driver _. bel. intros [a1 s2] H1. bel. intros s3 H3. intros H4.
+  destruct (base_command_is _ _ _ _ Hb) as (mods & Hm & ->).
+  rewrite (one_shot_keeps_execstart _ _ _ H4), (add_raw_exec_execstart _ _ _ H3).
+  set (hd := global_words podman mods u c_VOLUME_SECTION ++ [L "volume"; L "create"; L "--ignore"]) in *.
+  assert (A : App hd a1).
+  { set (a0 := match driver with Some d => hd ++ [L "--driver"; d] | None => hd end) in *.
+    assert (A0 : App hd a0) by (unfold a0; destruct driver; [apply App_app|apply App_refl]).
+    eapply App_trans; [exact A0|]. revert H1. destruct (str_eqb _ (L "image")).
+    - bel. intros img _. destruct img as [im|]; [|discriminate]. bel. intros [iname s4] _. intros X. injection X as <- _. apply App_app.
+    - bel. intros usr _. bel. intros grp _. bel. intros dev _.
+      set (a2 := match lookup_bool u c_VOLUME_SECTION (L "Copy") with Some true => a0 ++ [L "--opt"; L "copy"] | Some false => a0 ++ [L "--opt"; L "nocopy"] | None => a0 end).
+      assert (A2 : App a0 a2) by (unfold a2; destruct (lookup_bool u c_VOLUME_SECTION (L "Copy")) as [[|]|]; first [apply App_app|apply App_refl]).
+      destruct dev as [[|dc ds]|]; cbv iota beta.
+      all: bel; intros ty _; bel; intros a3 H3'; bel; intros mo _; bel; intros opts _; intros X; injection X as <- _.
+      all: eapply App_trans; [exact A2|].
+      all: destruct ty as [[|tc ts]|]; try discriminate; injection H3' as <-.
+      all: repeat match goal with |- App _ (match ?o with [] => _ | _ :: _ => _ end) => destruct o end; rewrite <- ?app_assoc; first [apply App_refl|apply App_app]. }
+  destruct A as [mid E]. exists (vals s2 SEC_S (L "ExecStart")), mods, (mid ++ flat_map (fun kv : str * str => [L "--label"; fst kv ++ [cEQ] ++ snd kv]) (lookup_all_key_val u c_VOLUME_SECTION (L "Label"))), nm.
+  split; [exact Hm|]. split; [exact Hn|].
+  unfold handle_podman_args, add_keys. rewrite E. unfold hd. rewrite <- !app_assoc. reflexivity.
+Qed.
